@@ -5,6 +5,7 @@ HERE=$(cd "$(dirname "$0")" && pwd)
 cd "$HERE"
 mkdir -p .work replay evidence
 PYTHONPATH="${VERIF_REPO:-/repo}" /venv/bin/python harness/genparams.py
+PYTHONPATH="${VERIF_REPO:-/repo}" /venv/bin/python harness/pytrans.py
 cd coq
 coq_makefile -f _CoqProject -o Makefile
 timeout 3000 make -j16
